@@ -1004,6 +1004,10 @@ def oracles_fault(op, S0, S1, SF, outF, sim, stats, versions=None):
     stats["faults_fired"][key] = stats["faults_fired"].get(key, 0) + 1
     if fired.get("write_in_flight"):
         stats["faults_with_write_in_flight"] = stats.get("faults_with_write_in_flight", 0) + 1
+    if fired.get("second"):
+        stats["second_faults_fired"] = stats.get("second_faults_fired", 0) + 1
+    if (sim.fault or {}).get("then") if hasattr(sim, "fault") else False:
+        stats["fault_sequences_planned"] = stats.get("fault_sequences_planned", 0) + 1
     named = set(named_files(op))
     common = dict(fault=fk, seam=seam, in_flight=bool(fired.get("write_in_flight")), persistent=True if fired.get("repeats") else None)
     truth = _truth_info(op, S0) if op["op"] == "sync" else None
